@@ -1,19 +1,23 @@
-# Per-property check configuration for ./check and gen_manifest.py.
-# pkg: Go test package under harness/; tags: extra build tags (verif is always on);
-# race: build with the race detector; timeouts in seconds (outer wall-clock watchdog => inconclusive).
-CHECKS = {
-    "C17": {
-        "pkg": "c17_kbin", "timeout_quick": 600, "timeout_thorough": 3600,
-        "technique": "reference-model monitor over enumerated and random values (differential oracle)",
-        "level_text": "exploration: pkg/kbin's encoders, length functions, decoders and Reader are observed against reference LEB128/zig-zag/big-endian implementations over boundary values, all 1-6 byte control-bit structures, every strict prefix of valid encodings, millions of random values; the thorough tier enumerates every uint32. The private kmsg copy is compared with the public file on the current tree.",
-        "level_note": "Trusted: the reference encoders in harness/c17_kbin. 64-bit values are sampled, not enumerated.",
-    },
-}
+# Check configuration: every harness/<pkg>/check.json maps property ids to their config
+# ({"Cnn": {"pkg":..., "tags":[...], "race":bool, "timeout_quick":s, "timeout_thorough":s,
+#   "technique":..., "level":..., "level_text":..., "level_note":...}}); the key "_c41" (optional)
+# describes how the package doubles as a C41 race workload. NOT_APPLICABLE lists unclaimed properties.
+import glob, json, os
+_here = os.path.dirname(os.path.abspath(__file__))
+CHECKS = {}
+C41_WORKLOADS = []
+for _f in sorted(glob.glob(os.path.join(_here, "harness", "*", "check.json"))):
+    _d = json.load(open(_f))
+    _pkg = os.path.basename(os.path.dirname(_f))
+    for _k, _v in _d.items():
+        _v.setdefault("pkg", _pkg)
+        if _k == "_c41":
+            C41_WORKLOADS.append(_v)
+        else:
+            CHECKS[_k] = _v
+if os.path.exists(os.path.join(_here, "c41.json")):
+    CHECKS["C41"] = json.load(open(os.path.join(_here, "c41.json")))
 
-# Properties not claimed, with the reason.
-NOT_APPLICABLE = {
-}
-
-# Workloads the C41 (data race) check runs under -race; each prints C41OBS lines.
-C41_WORKLOADS = [
-]
+NOT_APPLICABLE = {}
+if os.path.exists(os.path.join(_here, "not_applicable.json")):
+    NOT_APPLICABLE = json.load(open(os.path.join(_here, "not_applicable.json")))
